@@ -162,6 +162,10 @@ func c05History(seed int64, idx int, tier string) []seqrun.Step {
 	rng := seqrun.Rng(seed, "C05", idx)
 	// a few ordinary keys, a long one (records of very different lengths), a non-ASCII one
 	keys := []string{"a", "b", "c", strings.Repeat("L", 300+rng.Intn(900)), "ключ/🔑"}[:3+idx%3]
+	if idx%2 == 0 {
+		// keys are byte strings: one that is not valid UTF-8 (these histories run on the inline client only)
+		keys = append(keys, "b\xff\xfein")
+	}
 	p := seqrun.Profile{
 		Steps: tierN(tier, 36, 60), Keys: keys, Lens: []int{14, 14, 5000}, MaxOpen: 3, TxBias: 45,
 		TagPrefix: fmt.Sprintf("h%d-", idx),
